@@ -435,6 +435,8 @@ func (e *Engine) callMods(fn *ssa.Function, call *ssa.CallCommon, ms *ModSet, fr
 		// function value: closures passed as parameters
 		ms.notes["indirect call through a function value (effects of the callee not tracked)"] = true
 	}
+	// pointers handed to callees without contract (see Frame.havocPointees)
+	e.pointeeMods(call, ms)
 	// closures passed as arguments may be invoked by the callee
 	for _, a := range call.Args {
 		for _, cfn := range closureCandidates(a) {
@@ -789,3 +791,57 @@ func staticBoxKey(v ssa.Value) string {
 }
 
 func itoa(i int) string { return fmt.Sprintf("%d", i) }
+
+func addPointeeKeys(et types.Type, ms *ModSet) {
+	if isStruct(et) {
+		u := et.Underlying().(*types.Struct)
+		for j := 0; j < u.NumFields(); j++ {
+			ms.addHeap(fieldHeapKey(et, j), modAny)
+		}
+	} else {
+		ms.addHeap(plainHeapKey(et), modAny)
+	}
+}
+
+func (e *Engine) pointeeMods(call *ssa.CallCommon, ms *ModSet) {
+	var callee *ssa.Function
+	if !call.IsInvoke() {
+		callee = call.StaticCallee()
+		if callee == nil {
+			if mc, ok := call.Value.(*ssa.MakeClosure); ok {
+				callee = mc.Fn.(*ssa.Function)
+			}
+		}
+		if callee != nil {
+			if c := e.db.Contracts[shortName(callee)]; c != nil && !c.Flags["inline"] {
+				return
+			}
+			if _, ok := libModels[libKey(callee)]; ok {
+				return
+			}
+			if !isRepoFn(callee) && pureExternal(callee) {
+				return
+			}
+		}
+	} else if c := e.db.Contracts[invokeName(call)]; c != nil {
+		return
+	}
+	external := callee == nil || !isRepoFn(callee)
+	for _, a := range call.Args {
+		if mi, ok := a.(*ssa.MakeInterface); ok {
+			if et := derefType(mi.X.Type()); et != nil {
+				if bk := staticBoxKey(mi.X); bk == "" {
+					addPointeeKeys(et, ms)
+				}
+			}
+			continue
+		}
+		if external {
+			if et := derefType(a.Type()); et != nil {
+				if _, isIface := et.Underlying().(*types.Interface); !isIface {
+					addPointeeKeys(et, ms)
+				}
+			}
+		}
+	}
+}
